@@ -6,7 +6,7 @@ def run(res, tier, seed, replay):
     res.cov["rule"] = ("real: T in {2,3,4,8,16} threads, each repeatedly creating an injector (installing a thread-specific fake on one shared function) or a preventer, calling the shared function 1-4 times with PRNG-inserted yields/sleeps, "
                        "and letting go by scope exit, by panic (25%), or by a scope exit that itself panics in call-count verification (an unmet times: budget, one holder in six); every event carries a global atomic sequence number; a holder counter raised right after acquiring and lowered right before letting go must never exceed 1; "
                        "a preventer holder must see the original, an injector holder the original before and exactly its own fake after installing; runs with mprotect/__clear_cache slowed by 300 us make the restore window long, so that an unlock before "
-                       "restore would let a waiting thread in and show it a patched function; all threads must finish (hand-over after panic); the recorded history is replayed on the extracted lock model (accept); "
+                       "restore would let a waiting thread in and show it a patched function; all threads must finish (hand-over after panic); one holder keeps its injector for 11 s (35 s thorough) while a preventer and an injector wait and must then be served; the recorded history is replayed on the extracted lock model (accept); "
                        "distinct = distinct (threads, slow flag) runs x acquisitions")
     res.cov["trusted_base"] = vlib.TRUSTED_COMMON + ["std::sync::Mutex is a correct mutex (lock = atomic test-and-set of the holder; poisoning recovered by NoPoisonMutex)", "harness/real lock.rs: sequence numbers and holder counter are taken inside the critical section (conservative sub-intervals)"]
     res.assumptions = ["the theorem covers every interleaving of the model; the implementation is observed only under the schedules the OS produces (partial)"]
@@ -26,6 +26,9 @@ def run(res, tier, seed, replay):
             runs.append((f"l{len(runs)}", nt, 12 if tier == "quick" else 40, r.randrange(1, 1 << 30), 300))
     deadline = 30 if tier == "quick" else 120        # a run takes well under 2 s; a run that makes no progress for this long is killed by the harness's watchdog (SIGALRM)
     lines = [f"{a} {b} {c} {d} {e} {deadline}" for a, b, c, d, e in runs]
+    # a holder that keeps its injector for a long time (11 s quick, 35 s thorough) while a preventer and an injector wait: however long the wait, they get their turn
+    hold = 11000 if tier == "quick" else 35000
+    lines.append(f"slow0 slow {hold} 0 0 {hold // 1000 + 30}")
     shards = [lines[i::4] for i in range(4)]
     procs = [subprocess.Popen([exe, "lock"], stdin=subprocess.PIPE, stdout=subprocess.PIPE, text=True) for _ in shards]
     outs = [p.communicate("\n".join(s) + "\n", timeout=1200)[0] for p, s in zip(procs, shards)]
@@ -34,6 +37,14 @@ def run(res, tier, seed, replay):
         for l in o.split("\n"):
             t = l.split(" ", 2)
             if len(t) >= 2: obs.setdefault(t[0], {})[t[1]] = t[2] if len(t) > 2 else ""
+    so = obs.get("slow0", {})
+    scase = dict(id="slow0", holder_keeps_its_injector_ms=hold, replay=f"real lock <<< 'slow0 slow {hold} 0 0 {hold // 1000 + 30}'")
+    if so.get("CHILD") != "exit:0" or "SLOW" not in so:
+        res.violation(f"slow-holder run did not complete ({so.get('CHILD')})", scase, str(so)[:400])
+    else:
+        kv = dict(x.split("=", 1) for x in so["SLOW"].split())
+        if kv.get("holder") != "5000" or kv.get("preventer") != "4242" or kv.get("injector") != "5002" or kv.get("after") != "4242":
+            res.violation(f"after waiting {hold} ms for a slow holder, the waiting preventer / injector did not get their turn with the right view: {so['SLOW']} (holder must see 5000, the preventer the original 4242, the waiting injector its own fake 5002)", scase, so["SLOW"])
     mlines = []
     acq = 0; distinct = set()
     for (rid, nt, iters, sd, slow) in runs:
